@@ -13,7 +13,8 @@ ASSUME = [
     "threads are cooperative inside irx: a context switch can happen at the three guarded hooks of gauss.cc (after save/disable, after each integration, after restore) and at every std::mutex lock/unlock (ministl model: lock blocks while held); switches between two instructions elsewhere are not explored, i.e. the claim is about the interleavings of the save/disable, integrate and restore steps the property names, not instruction-level data races",
     "two threads, each one call of decay0_gauss (thorough: also two calls each, with status in {0, GSL_ETOL}) running the real retry loop (K=64 per branch site; paths cut at the bound are reported); three or more threads are outside the bound (path enumeration without partial-order reduction exceeds 200000 schedules)",
     "C++11 thread-safe initialisation of function-local statics is assumed (the __cxa_guard calls are executed by whichever thread arrives first)",
-    "the other process-wide state named by the property (function-local statics in utils.cc / bb_utils.cc) is exercised single-threaded by the C05/C09/C13 harnesses only; a data-race analysis of them is outside this check",
+    "module instances: two threads, each with its own decay0_generator (real decay0_generator.cc, bb_utils.cc with its catalogue statics read from the resource files inside the threads, utils.cc, event.cc, particle.cc, mdl_event_op.cc), own deviate source and events: Se82 0nubb with a momentum-direction-lock operation / Co60 background; initialise, shoot twice, reset; genbbsub is a stub with schedule points (the nuclide schemes and decay0_bb are not run on threads); every interleaving of those schedule points (924 schedules)",
+    "data races: lockset analysis inside irx over all explored schedules - two worker threads access overlapping bytes of a non-stack object, at least one writes, no common std::mutex held; accesses during a C++11 guarded static initialisation (__cxa_guard_acquire .. release) are exempt, atomics are exempt; lockset analysis is schedule-independent for the accesses the threads execute, but says nothing about code the harness does not run",
 ]
 
 
@@ -23,18 +24,21 @@ def run(tier, seed):
     rep = vlib.Reporter("C12")
     lls = vlib.ir_units(wd, ["gauss"], {"gauss": ["BXDECAY0_VERIF"]})
     hs = vlib.E3H + "/c12_threads.cpp"
-    jobs = [("twothreads", []), ("single", ["SINGLE"]), ("witness", ["WITNESS"])]
+    # two generator instances on two threads (real decay0_generator / bb_utils / utils / event / mdl_event_op), lockset race detection
+    lli = vlib.ir_units(wd, ["decay0_generator", "bb_utils", "event", "particle", "particle_utils", "utils", "bb", "mdl_event_op"], {"bb": ["decay0_bb=decay0_bb_real"]})
+    hi = vlib.E3H + "/c12_instances.cpp"
+    jobs = [("twothreads", hs, lls, []), ("single", hs, lls, ["SINGLE"]), ("instances", hi, lli, []), ("witness_instances", hi, lli, ["WITNESS"]), ("witness", hs, lls, ["WITNESS"])]
     if tier == "thorough":
-        jobs.insert(1, ("twothreads_twocalls", ["NCALLS=2"]))  # each thread calls the wrapper twice (status in {0, GSL_ETOL}); three threads exceed 200000 paths (measured) and are not run
-    mods = vlib.parallel(jobs, lambda j: vlib.irx_link(wd, j[0], lls, hs, j[1]))
+        jobs.insert(1, ("twothreads_twocalls", hs, lls, ["NCALLS=2"]))  # each thread calls the wrapper twice (status in {0, GSL_ETOL}); three threads exceed 200000 paths (measured) and are not run
+    mods = vlib.parallel(jobs, lambda j: vlib.irx_link(wd, j[0], j[2], j[1], j[3]))
     res = vlib.irx_run(mods, K=64, timeout=3000)
-    wit, res = res[-1], res[:-1]
-    keys = [j[0] for j in jobs[:-1]]
+    wits, res = res[-2:], res[:-2]
+    keys = [j[0] for j in jobs[:-2]]
     agg = vlib.irx_aggregate(res)
-    witness_ok = any(x.get("type") == "assert_fail" and "WITNESS" in x.get("what", "") for x in wit["records"])
+    witness_ok = all(any(x.get("type") == "assert_fail" and "WITNESS" in x.get("what", "") for x in w["records"]) for w in wits)
     samples, n = irx_common.collect("C12", wd, rep, keys, res)
     return irx_common.finish("C12", tier, seed, t0, rep, agg, samples, witness_ok,
-                             {"functions": ["bxdecay0::decay0_gauss"], "threads": 2, "calls_per_thread": 2 if tier == "thorough" else 1,
+                             {"functions": ["bxdecay0::decay0_gauss", "decay0_generator::initialize/shoot/reset", "bb_utils catalogues (function-local statics)", "momentum_direction_lock_event_op::operator()"], "threads": 2, "calls_per_thread": 2 if tier == "thorough" else 1,
                               "schedule_points": "BXDECAY0_VERIF_YIELD(1|2|3) in gauss.cc + std::mutex lock/unlock"}, ASSUME)
 
 
